@@ -11,7 +11,7 @@ from ..ctx import Result, Viol
 
 LEVEL = "exploration"
 WORKERS = {"quick": 8, "thorough": 16}
-BUDGET_S = {"quick": 50, "thorough": 650}
+BUDGET_S = {"quick": 45, "thorough": 650}
 RULE = (
     "Hypothesis draws a content (segments: pool blocks, random bytes, token text with LF/CRLF/bare CR/"
     "NUL/high bytes, fillers that put the content length or a NUL/CR/LF at 510-513, 1023-1025 and "
@@ -500,7 +500,7 @@ def run(ctx):
             from . import c14_booster
 
             c14_booster.run(ctx)
-    ctx.run_given(cases(), run_case, ctx.n(quick=3000, thorough=90000))
+    ctx.run_given(cases(), run_case, ctx.n(quick=2000, thorough=90000))
 
 
 def replay(case, ctx):
